@@ -31,7 +31,7 @@ type groupTaskKey struct{}
 
 // runGroup interleaves the operations; faults>0 lets the scheduler fail up to that many storage calls.
 func runGroup(w *world.World, o *kernel.Outcome, stream string, ops []*groupOp, faults int) []string {
-	sched := kernel.NewSched(w.Tape, stream, 400)
+	sched := kernel.NewSched(w.Tape, stream, 800)
 	byTask := map[string]*groupOp{}
 	prev := w.Store.OnCall
 	w.Store.OnCall = func(ctx context.Context, method string) string {
@@ -54,6 +54,14 @@ func runGroup(w *world.World, o *kernel.Outcome, stream string, ops []*groupOp, 
 		}
 	}
 	defer func() { w.Net.OnWrite = prevW }()
+	// ... and wherever it reaches for its response headers: between any two effects of a handler
+	prevH := w.Net.OnHeader
+	w.Net.OnHeader = func(ctx context.Context, ex *world.Exchange) {
+		if name, ok := ctx.Value(groupTaskKey{}).(string); ok {
+			sched.Park(name, "net.header", nil)
+		}
+	}
+	defer func() { w.Net.OnHeader = prevH }()
 	for i, op := range ops {
 		name := fmt.Sprintf("t%d", i)
 		byTask[name] = op
